@@ -272,8 +272,10 @@ class MDctx:
         self.orc = orc
         self.id = orc.ask("new")
     def decompress(self, src, cap, dstnull=False, skip=False, dict_=None):
+        if dict_ is not None and getattr(self.orc, "_cur_dict", None) != dict_:
+            self.orc.ask("setdict", hx(dict_)); self.orc._cur_dict = dict_
         a = self.orc.ask("dec", self.id, hx(src), str(cap), "1" if dstnull else "0", "1" if skip else "0",
-                         "1" if dict_ is not None else "0", hx(dict_ or b"")).split()
+                         "1" if dict_ is not None else "0").split()
         if len(a) < 8:
             raise RuntimeError("oracle: " + " ".join(a))
         return {"consumed": int(a[0]), "produced": int(a[1]), "ret": int(a[2]), "fuel": a[3], "oob": a[4], "stage": a[5],
@@ -340,6 +342,10 @@ def chunk_plan(rng, policy, total, hlen=7):
 def cap_plan(rng, policy, bs):
     if policy == "rand":
         return lambda: rng.choice([0, 1, 2, 7, 100, bs - 1, bs, bs + 1])
+    if policy == "small":
+        return lambda: rng.choice([0, 1, 2, 7, 100, 1000])
+    if policy == "mid":
+        return lambda: rng.choice([1000, 4096, 20000, bs // 2, bs - 1, bs, rng.randrange(1000, bs)])
     v = {"1": 1, "7": 7, "bs-1": bs - 1, "bs": bs, "large": bs + 70000}[policy] if isinstance(policy, str) else int(policy)
     return lambda: v
 
@@ -411,7 +417,7 @@ class Session:
         self.cd.free(); self.md.free()
 
 def drive(sess, rng, data, chunking="whole", capmode="large", skip=False, stable=False, dict_=None, bs=65536, hlen=7,
-          multi=False, max_calls=200000, dstnull_prob=0.0):
+          multi=False, max_calls=8000, dstnull_prob=0.0):
     """Feed [data] to the session.  Returns dict(verdict=complete|error|incomplete|corr|prop|noprogress, ...)."""
     nxt = chunk_plan(rng, chunking, len(data), hlen)
     capf = cap_plan(rng, capmode, bs)
@@ -450,4 +456,4 @@ def drive(sess, rng, data, chunking="whole", capmode="large", skip=False, stable
                 return {"verdict": "incomplete", "pos": pos, "out": bytes(out), "hint": ret, "frames": frames}
         else:
             stall = 0
-    return {"verdict": "noprogress", "what": "more than %d calls" % max_calls, "pos": pos, "frames": frames}
+    return {"verdict": "toolong", "what": "more than %d calls" % max_calls, "pos": pos, "frames": frames}
